@@ -23,6 +23,7 @@ THEOREMS = [
     "C14_requires_total", "C14_malformed_hides_nothing", "C14_hidden_only_by_false_clause",
     "C14_page_exact", "C14_page_dom_partial", "C14_page_dom_refuted_trailing_text", "C14_page_dom_refuted_nested_text",
     "C14_hash_is_links_fragment", "C14_findlinks_exact",
+    "C14_pin_file_is_link_file", "C14_pin_history_files_are_link_files",
 ]
 RULE = ("four generated families, each run through the real code and the extracted Gallina model: (R) requires-python "
         "strings (comma lists of >=,<,==,!=,~=,<=,>,bare and wildcard clauses with 1-4 components near the interpreter "
@@ -32,7 +33,10 @@ RULE = ("four generated families, each run through the real code and the extract
         "sets, all extensions, dumb-binary markers, ~15% malformed) -> filename_to_candidate's Candidate fields / None / "
         "exception; (P) HTML pages fed to LinksHTMLParser (through _scan_page_links with a fake session), the events the "
         "real html.parser delivers are recorded and replayed on the model -> ordered (candidate, href) list; (L/H) find-links "
-        "directories and resolve_candidate hash/URL. parse_version is answered for the model by packaging (oracle table). "
+        "directories and resolve_candidate hash/URL; (Q) HISTORIES of 2-5 resolve_candidate calls that share one wheel directory, "
+        "against two or three indexes serving different bytes under one file name (links relative/absolute/rooted, with a true "
+        "sha256 fragment, without one, md5, doubled or trailing fragments, a digest of other bytes) -> per step which bytes the "
+        "metadata came from, hash, cached flag, URLs downloaded, wheel directory afterwards. parse_version is answered for the model by packaging (oracle table). "
         "Non-trivial = the case yields a candidate / a True-False verdict / a page with >=1 offered file; distinct = distinct input.")
 TRUSTED_BASE = [
     "T1 harness/translate.py: replace chain of normalize_project_name -> gen/NameConsts.v (shared with C17; used by C14_sdist_name_normalises)",
@@ -45,12 +49,17 @@ TRUSTED_BASE = [
     "version-string parsing is NOT modelled: pkg_resources.parse_version (packaging 26.3) is an oracle `pv : string -> option version`; "
     "the theorems hold for every pv (file names) / for every pv that reads dotted digit strings as releases (requires-python); "
     "the harness answers the model's pv queries with packaging",
+    "T1 reads the two tests of _do_download that decide whether a file already in the wheel directory is reused, as a boolean "
+    "expression over {digest advertised, file exists, digest matches} -> gen/ConstsC14.v dl_reuse_outer/dl_reuse_inner (model/ResolveC14.v "
+    "interprets them; proofs/ResolveC14P.v gen_reuse_condition is the obligation: reuse only on an advertised, matching digest)",
     "html.parser tokenisation (events delivered for a page), urllib.parse.urljoin, sha256, os.listdir, posixpath are not modelled; "
     "model/StrC14.v (str/posixpath operations) is validated against CPython on ASCII strings by sampling (command U)",
     "lib/Pep440.v version order and clause semantics validated against packaging by C17's grid",
     "modelled, not verified: the anchored code of /repo",
 ]
 ASSUMPTIONS = [
+    "C14_pin_*: sha256 is collision free and an index advertises (#sha256=) only the digest of the bytes it serves at that link; the network is a "
+    "function url -> bytes per step; MetadataError clean-up and partial files are C15's side of _do_download",
     "inputs are ASCII (str.strip/lower/isdigit and \\d are modelled for ASCII only)",
     "the interpreter version is a (major, minor, patch) triple of naturals patched into the three module constants",
     "int() is modelled as succeeding exactly on non-empty ASCII digit strings (its callers only reach it after parse_version accepted the text)",
@@ -453,6 +462,9 @@ class FakeSession:
         self.requested.append(url)
         if url in self.pages:
             return FakeResponse(url, self.pages[url])
+        bare = urllib.parse.urldefrag(url)[0]     # a fragment is never sent to the server
+        if bare in self.pages:
+            return FakeResponse(bare, self.pages[bare])
         return FakeResponse(url, b"", 404)
 
     def close(self) -> None:
@@ -523,14 +535,233 @@ def is_ascii(s: str) -> bool:
     return all(ord(ch) < 128 for ch in s)
 
 
-def wheel_bytes(name: str, version: str) -> bytes:
+def wheel_bytes(name: str, version: str, requires: Tuple[str, ...] = ()) -> bytes:
+    """deterministic bytes (fixed time stamps): digests written into replay files stay valid"""
     buf = io.BytesIO()
     with zipfile.ZipFile(buf, "w") as z:
         di = f"{name}-{version}.dist-info"
-        z.writestr(di + "/METADATA", f"Metadata-Version: 2.1\nName: {name}\nVersion: {version}\n")
-        z.writestr(di + "/WHEEL", "Wheel-Version: 1.0\nGenerator: verif\nRoot-Is-Purelib: true\nTag: py3-none-any\n")
-        z.writestr(di + "/RECORD", "")
+
+        def put(path: str, text: str) -> None:
+            z.writestr(zipfile.ZipInfo(path, date_time=(2020, 1, 1, 0, 0, 0)), text)
+        put(di + "/METADATA", f"Metadata-Version: 2.1\nName: {name}\nVersion: {version}\n" + "".join(f"Requires-Dist: {r}\n" for r in requires))
+        put(di + "/WHEEL", "Wheel-Version: 1.0\nGenerator: verif\nRoot-Is-Purelib: true\nTag: py3-none-any\n")
+        put(di + "/RECORD", "")
     return buf.getvalue()
+
+
+# ----------------------------------------------------------------------------------------
+# sequences of resolutions that share one wheel directory (two indexes, same file name, different bytes)
+
+SEQ_FILES = {"shared_pkg-1.0-py3-none-any.whl": ("shared-pkg", "shared_pkg", "1.0"),
+             "other_pkg-2.0-py3-none-any.whl": ("other-pkg", "other_pkg", "2.0")}
+SEQ_INDEXES = ["https://index-a.example.org/simple", "https://mirror-b.example.org/root/pypi/+simple", "https://idx.example.org/c/simple/"]
+_SEQ_BYTES: Dict[Tuple[str, str], bytes] = {}
+
+
+def seq_bytes(fname: str, cid: str) -> bytes:
+    """content variant `cid` of the wheel `fname`: same name and version, different requirements"""
+    key = (fname, cid)
+    if key not in _SEQ_BYTES:
+        _, dist, ver = SEQ_FILES[fname]
+        _SEQ_BYTES[key] = wheel_bytes(dist, ver, (f"dep-{cid}>=1", f"extra-{cid}"))
+    return _SEQ_BYTES[key]
+
+
+def gen_sequence(rng, honest_only: bool = False) -> Dict[str, Any]:
+    steps = []
+    shared = "shared_pkg-1.0-py3-none-any.whl"
+    for _ in range(rng.choice([2, 2, 3, 3, 4, 5])):
+        fname = shared if rng.random() < 0.8 else "other_pkg-2.0-py3-none-any.whl"
+        cid = rng.choice(["a", "a", "b", "b", "c"])
+        index = rng.choice(SEQ_INDEXES)
+        style = rng.choice(["relative", "relative", "absolute", "rooted"])
+        base = {"relative": f"../../packages/{cid}{rng.randint(0, 1)}/", "absolute": f"https://files.example.org/p/{cid}/", "rooted": f"/pkgs/{cid}/"}[style]
+        true_sha = hashlib.sha256(seq_bytes(fname, cid)).hexdigest()
+        r = rng.random()
+        if r < 0.45:
+            frag = ""
+        elif r < 0.78:
+            frag = "#sha256=" + true_sha
+        elif r < 0.83:
+            frag = "#md5=" + hashlib.md5(seq_bytes(fname, cid)).hexdigest()
+        elif r < 0.88:
+            frag = "#sha256=" + true_sha + rng.choice(["#egg=x", "#sha256=" + true_sha, "&x=1"])
+        elif r < 0.91:
+            frag = rng.choice(["#", "#sha256=", "#egg=shared"])
+        elif honest_only:
+            frag = ""
+        else:   # an index advertising the digest of other bytes (outside the theorem's hypothesis; model and code must still agree)
+            other = rng.choice([c for c in "abc" if c != cid])
+            frag = "#sha256=" + hashlib.sha256(seq_bytes(fname, other)).hexdigest()
+        steps.append({"index": index, "file": fname, "cid": cid, "href": base + fname + frag})
+    return {"steps": steps}
+
+
+def seq_network(step: Dict[str, Any]) -> Tuple[str, str, Dict[str, bytes]]:
+    """(page url, file url without fragment, url -> bytes) of the index consulted in this step"""
+    project = SEQ_FILES[step["file"]][0]
+    index = step["index"][:-1] if step["index"].endswith("/") else step["index"]
+    page_url = index + "/" + project + "/"
+    file_url = urllib.parse.urldefrag(urllib.parse.urljoin(page_url, step["href"]))[0]
+    html = f'<!DOCTYPE html><html><body><h1>Links for {project}</h1>\n<a href="{step["href"]}">{step["file"]}</a><br/>\n</body></html>'
+    return page_url, file_url, {page_url: html.encode(), file_url: seq_bytes(step["file"], step["cid"])}
+
+
+def _cid_of_dist(dist: Any) -> str:
+    names = sorted(str(r) for r in dist.requires())
+    for n in names:
+        if n.startswith("dep-"):
+            return n[4:].split(">")[0].split("=")[0]
+    return "?" + ",".join(names)
+
+
+def _cid_of_bytes(fname: str, body: bytes) -> str:
+    for c in "abc":
+        if seq_bytes(fname, c) == body:
+            return c
+    return "?" + hashlib.sha256(body).hexdigest()[:8]
+
+
+def impl_sequence(scn: Dict[str, Any], wheeldir: str, through_get_dist: bool = False) -> List[Dict[str, Any]]:
+    """Run the steps on the real code with ONE wheel directory; one observation per step."""
+    m = imp()
+    P, pkg_resources = m["P"], m["pkg_resources"]
+    out = []
+    for step in scn["steps"]:
+        page_url, file_url, table = seq_network(step)
+        sess = FakeSession(table)
+        repo = P.PyPIRepository(step["index"], wheeldir)
+        repo.session = sess
+        req = pkg_resources.Requirement.parse(SEQ_FILES[step["file"]][0])
+        obs: Dict[str, Any] = {}
+        try:
+            if through_get_dist:
+                dist, cached = repo.get_dist(req)
+                link = dist.candidate.link
+            else:
+                cands = list(repo.get_candidates(req))
+                link = cands[0].link
+                dist, cached = repo.resolve_candidate(cands[0])
+            obs = {"cid": _cid_of_dist(dist), "hash": dist.hash, "cached": bool(cached), "name": dist.name, "version": str(dist.version),
+                   "printed_url": urllib.parse.urljoin(link[0], link[1]),
+                   "downloads": [u for u in sess.requested if u != page_url]}
+        except Exception as ex:
+            obs = {"exc": type(ex).__name__}
+        obs["wheeldir"] = {f: _cid_of_bytes(f, open(os.path.join(wheeldir, f), "rb").read()) for f in sorted(os.listdir(wheeldir)) if f in SEQ_FILES}
+        out.append(obs)
+    return out
+
+
+def model_sequence_line(scn: Dict[str, Any]) -> str:
+    steps, serve, digs = [], [], {}
+    for i, step in enumerate(scn["steps"]):
+        page_url, file_url, _ = seq_network(step)
+        key = urllib.parse.urljoin(page_url, step["href"]) + "@" + str(i)      # the network may change between steps
+        steps += [hx(step["file"]), hx(step["href"]), hx(key)]
+        serve += [hx(key), hx(step["cid"] + ":" + step["file"])]
+        for c in "abc":
+            for f in SEQ_FILES:
+                digs[c + ":" + f] = hashlib.sha256(seq_bytes(f, c)).hexdigest()
+    toks = ["Q", str(len(scn["steps"]))] + steps + [str(len(scn["steps"]))] + serve + [str(len(digs))]
+    for k, v in digs.items():
+        toks += [hx(k), hx(v)]
+    toks += ["0"]
+    return " ".join(toks)
+
+
+def parse_sequence_ans(ans: str) -> Any:
+    t = Toks(ans.split())
+    pins = []
+    for _ in range(int(t.next())):
+        cid = unhx(t.next()).split(":")[0]
+        h = unhx(t.next()) if t.next() == "S" else None
+        pins.append({"cid": cid, "hash": h, "cached": t.next() == "1"})
+    tail = t.next()
+    if tail == "NOFILE":
+        return pins, None
+    wd = {}
+    for _ in range(int(t.next())):
+        f, c = unhx(t.next()), unhx(t.next())
+        wd[f] = c.split(":")[0]
+    return pins, wd
+
+
+def oracle_sequence(scn: Dict[str, Any]) -> Optional[str]:
+    """The statement on the real code only: metadata and hash reported for a pin are those of the bytes
+    served at urljoin(page url, link) of that pin - whatever earlier resolutions left in the wheel directory."""
+    import shutil
+    import tempfile
+    from req_compile.metadata import extract_metadata
+    wd = tempfile.mkdtemp(prefix="c14seq-", dir=str(common.BUILD))
+    try:
+        obs = impl_sequence(scn, wd, through_get_dist=True)
+        for i, (step, o) in enumerate(zip(scn["steps"], obs)):
+            page_url, file_url, table = seq_network(step)
+            if "exc" in o:
+                return f"step {i + 1}: resolving {step['file']} from {step['index']} raised {o['exc']}"
+            printed = urllib.parse.urldefrag(o["printed_url"])[0]
+            if printed not in table:
+                return f"step {i + 1}: the pin's URL {o['printed_url']} is not a file of the index that was asked"
+            served = table[printed]
+            ref_dir = tempfile.mkdtemp(prefix="c14ref-", dir=str(common.BUILD))
+            try:
+                path = os.path.join(ref_dir, step["file"])
+                with open(path, "wb") as fh:
+                    fh.write(served)
+                ref = extract_metadata(path)
+                want = (ref.name, str(ref.version), _cid_of_dist(ref))
+            finally:
+                shutil.rmtree(ref_dir, ignore_errors=True)
+            got = (o["name"], o["version"], o["cid"])
+            if got != want:
+                return (f"step {i + 1}: the pin reports URL {o['printed_url']} but its metadata {got} is not that of the file "
+                        f"served there {want} (wheel directory held {obs[i - 1]['wheeldir'] if i else {}})")
+            if o["hash"] and o["hash"].startswith("sha256:") and o["hash"][7:] != hashlib.sha256(served).hexdigest():
+                return f"step {i + 1}: printed hash {o['hash']} is not the sha256 of the file at {o['printed_url']}"
+        return None
+    finally:
+        shutil.rmtree(wd, ignore_errors=True)
+
+
+def sequences(ctx: Ctx) -> None:
+    """T2 for resolve_candidate over histories: same wheel directory, several indexes."""
+    rng = ctx.rng
+    tmp = ctx.tmpdir()
+    scns, lines = [], []
+    fixed = [
+        {"steps": [{"index": SEQ_INDEXES[0], "file": "shared_pkg-1.0-py3-none-any.whl", "cid": "a", "href": "../../packages/aa/shared_pkg-1.0-py3-none-any.whl"},
+                   {"index": SEQ_INDEXES[1], "file": "shared_pkg-1.0-py3-none-any.whl", "cid": "b", "href": "../../+f/123/shared_pkg-1.0-py3-none-any.whl"},
+                   {"index": SEQ_INDEXES[1], "file": "shared_pkg-1.0-py3-none-any.whl", "cid": "b", "href": "https://mirror-b.example.org/root/pypi/+f/123/shared_pkg-1.0-py3-none-any.whl"}]},
+    ]
+    for i in range(ctx.n(150, 1500)):
+        scn = fixed[i] if i < len(fixed) else gen_sequence(rng)
+        scns.append(scn)
+        lines.append(model_sequence_line(scn))
+    answers = run_model("C14", lines)
+    for i, (scn, ans) in enumerate(zip(scns, answers)):
+        wd = tmp / f"seq{i}"
+        wd.mkdir()
+        obs = impl_sequence(scn, str(wd))
+        try:
+            pins, fin = parse_sequence_ans(ans)
+        except Exception:
+            pins, fin = "?" + ans[:200], None
+        impl = {"pins": [({"cid": o["cid"], "hash": o["hash"], "cached": o["cached"]} if "exc" not in o else o["exc"]) for o in obs],
+                "wheeldir": obs[-1]["wheeldir"] if obs else {}}
+        model = {"pins": pins, "wheeldir": fin}
+        reuse = sum(1 for o in obs if o.get("cached"))
+        ctx.count("kind:Q")
+        ctx.count("Q-steps", len(scn["steps"]))
+        ctx.count("Q-reused", reuse)
+        ctx.count("Q-overwritten", sum(1 for j, o in enumerate(obs) if j and not o.get("cached") and scn["steps"][j]["file"] in obs[j - 1]["wheeldir"]))
+        ctx.case(key=("Q", json.dumps(scn, sort_keys=True)), nontrivial=len({s["cid"] for s in scn["steps"]}) > 1,
+                 sample={"kind": "Q", "steps": scn["steps"], "impl": impl} if i == 1 else None)
+        if json.dumps(impl, sort_keys=True) != json.dumps(model, sort_keys=True):
+            ctx.mismatch("resolve-sequence", scn, impl, model)
+        # downloads happen exactly when the file is not reused, and from the pin's own URL
+        for o in obs:
+            if "exc" not in o and o["downloads"] != ([] if o["cached"] else [o["printed_url"]]):
+                ctx.mismatch("resolve-sequence-download", scn, o["downloads"], [] if o["cached"] else [o["printed_url"]])
 
 
 # ----------------------------------------------------------------------------------------
@@ -652,6 +883,7 @@ def correspondence(ctx: Ctx) -> None:
             ctx.mismatch("page", {"interp": list(triple), "html": html}, exp, got)
 
     hash_and_findlinks(ctx)
+    sequences(ctx)
     coq_recheck(ctx, rsample, wsample)
 
 
@@ -1120,6 +1352,11 @@ def run_oracles(ctx: Ctx, n: int) -> Optional[Dict[str, Any]]:
             why = oracle_page(html, triple)
             if why:
                 return {"kind": "page", "input": [list(triple), html], "why": why}
+        elif r < 0.985:
+            scn = gen_sequence(rng, honest_only=True)
+            why = oracle_sequence(scn)
+            if why:
+                return {"kind": "sequence", "input": scn, "why": why}
         else:
             base = rng.choice(["", "../../p/", "https://f.example.org/"])
             why = oracle_hash(base, "")
@@ -1128,12 +1365,25 @@ def run_oracles(ctx: Ctx, n: int) -> Optional[Dict[str, Any]]:
     return None
 
 
+def seq_is_honest(scn: Dict[str, Any]) -> bool:
+    for st in scn["steps"]:
+        parts = st["href"].split("#sha256=")
+        if len(parts) > 1 and any(parts[1] == hashlib.sha256(seq_bytes(st["file"], c)).hexdigest() for c in "abc" if c != st["cid"]):
+            return False
+    return True
+
+
 def search(ctx: Ctx) -> Optional[Dict[str, Any]]:
     imp()
     # suspects first: cases on which code and model disagreed
     for mm in ctx.mismatches:
         try:
             c = mm["case"]
+            if mm["where"].startswith("resolve-sequence") and seq_is_honest(c):
+                why = oracle_sequence(c)
+                if why:
+                    return {"kind": "sequence", "input": c, "why": why}
+                continue
             if mm["where"] == "requires-python" and c.get("requires") is not None:
                 parts = [p for p in c["requires"].split(",") if p.strip()]
                 try:
@@ -1164,6 +1414,12 @@ def search(ctx: Ctx) -> Optional[Dict[str, Any]]:
                         return {"kind": "page", "input": [c["interp"], c["html"]], "why": why}
         except Exception:
             continue
+    # histories that share a wheel directory are cheap to try and rarely reached by the mixed stream below
+    for _ in range(ctx.n(200, 2000)):
+        scn = gen_sequence(ctx.rng, honest_only=True)
+        why = oracle_sequence(scn)
+        if why:
+            return {"kind": "sequence", "input": scn, "why": why}
     return run_oracles(ctx, ctx.n(6000, 60000))
 
 
@@ -1189,6 +1445,8 @@ def replay(ctx: Ctx, payload: Dict[str, Any]) -> bool:
         return oracle_page(a[1], tuple(a[0])) is not None
     if k == "hash":
         return oracle_hash(a[0], "") is not None
+    if k == "sequence":
+        return oracle_sequence(a) is not None
     return False
 
 
